@@ -180,3 +180,57 @@ def reset_pydoctor_globals() -> None:
             table.ChildTable.last_id = 0
     except Exception:
         pass
+
+
+def run_fuzz_item(prop: str, target: str, seconds: int, seed: int) -> Acc:
+    """One coverage-guided worker (atheris subprocess).  Returns its counters and at most one violation."""
+    import json as _json
+    import re
+    import shutil
+    import subprocess
+    import tempfile
+    acc = Acc()
+    deps = os.environ.get("VERIF_DEPS", os.path.join(HOME, ".deps"))
+    try:
+        chk = subprocess.run([PY, "-c", "import sys; sys.path.insert(0, %r); import atheris" % deps], capture_output=True)
+        if chk.returncode != 0:
+            acc.notes["atheris"] = "not installed; coverage-guided stage skipped"
+            return acc
+    except Exception:
+        acc.notes["atheris"] = "not installed; coverage-guided stage skipped"
+        return acc
+    from .run import scratch_root
+    wd = tempfile.mkdtemp(prefix="pv_fuzz_", dir=scratch_root())
+    try:
+        env = dict(os.environ)
+        env["VERIF_DEPS"] = deps
+        p = subprocess.run([PY, "-m", "pv.fuzz", target, wd, str(seconds), str(seed)], cwd=HOME, env=env,
+                           capture_output=True, text=True, errors="replace", timeout=seconds + 600)
+        m = re.search(r"stat::number_of_executed_units:\s*(\d+)", p.stderr)
+        execs = int(m.group(1)) if m else 0
+        acc.evals += execs
+        # libFuzzer does not tell how many inputs were distinct; the corpus it kept is a lower bound of distinct, coverage-increasing inputs
+        corpus = os.path.join(wd, "corpus")
+        kept = 0
+        if os.path.isdir(corpus):
+            for f in os.listdir(corpus):
+                kept += 1
+                with open(os.path.join(corpus, f), "rb") as fh:
+                    acc.nontrivial.add(chash(fh.read().hex()))
+        acc.classes["atheris-executions"] += execs
+        acc.classes["atheris-corpus-kept"] += kept
+        if len(acc.samples) < 2:
+            acc.samples.append({"atheris_target": target, "executions": execs, "corpus_inputs_kept": kept, "seconds": seconds})
+        fj = os.path.join(wd, "finding.json")
+        if os.path.exists(fj):
+            with open(fj) as fh:
+                f = _json.load(fh)
+            if f.get("property") == prop:
+                acc.violations.append({"sig": f["sig"], "msg": f["msg"], "case": f["case"]})
+            else:
+                acc.notes.setdefault("other_property_candidates", []).append({"property": f.get("property"), "sig": f.get("sig"), "case": trunc(f.get("case"), 800)})
+        elif p.returncode != 0 and execs == 0:
+            acc.errors.append("atheris worker failed: %s" % p.stderr[-800:])
+    finally:
+        shutil.rmtree(wd, ignore_errors=True)
+    return acc
